@@ -119,3 +119,25 @@ Theorem seq_stops_at_exit {T : Type} (Ops : NumOps T) (f : T -> T) (a b acc : T)
   fst (find_root_h Ops f a b acc) = Exit ->
   find_root_seq Ops ((f, a, b, acc) :: rest) = [find_root_h Ops f a b acc].
 Proof. intros H. cbn [find_root_seq]. rewrite H. reflexivity. Qed.
+
+(** ** NaN at an end takes precedence over a zero at the other end (third strengthening pass)
+    The NaN test is the FIRST test on the end values: a request whose function is NaN at one end ends the process
+    even when the other end is an exact zero (value +0 or -0: [neqb] holds for both) — on every instance of the
+    number interface, whatever the order of the ends — and with it the history it is part of. *)
+Theorem nan_end_beats_zero_end {T : Type} (Ops : NumOps T) (f : T -> T) (a b acc : T) :
+  let xl := if ngtb Ops a b then b else a in
+  let xr := if ngtb Ops a b then a else b in
+  (neqb Ops (f xl) (nofZ Ops 0) = true /\ nisnan Ops (f xr) = true) \/
+  (nisnan Ops (f xl) = true /\ neqb Ops (f xr) (nofZ Ops 0) = true) ->
+  find_root Ops f a b acc = (Exit, [xl; xr]) /\
+  forall rest, find_root_seq Ops ((f, a, b, acc) :: rest) = [(Exit, [xl; xr])].
+Proof.
+  intros xl xr H.
+  assert (E : nisnan Ops (f xl) || nisnan Ops (f xr) = true).
+  { apply orb_true_iff. destruct H as [[_ H]|[H _]]; [right|left]; exact H. }
+  assert (Eh : find_root_h Ops f a b acc = (Exit, [xl; xr])).
+  { unfold find_root_h. fold xl xr. rewrite E. reflexivity. }
+  split.
+  - unfold find_root. rewrite Eh. reflexivity.
+  - intros rest. cbn [find_root_seq]. rewrite Eh. reflexivity.
+Qed.
